@@ -254,6 +254,41 @@ func ruleArithmetic(c *Ctx, r *Repo) {
 				}
 			}
 		}
+		// the same fold through a shared helper: return H(first, rest, func(a, b T) T { return a OP b })
+		// where H starts from its first argument and feeds the accumulator and each further element to
+		// the function, in order
+		if !good && len(fd.Body.List) == 1 {
+			if rs, ok := fd.Body.List[0].(*ast.ReturnStmt); ok && len(rs.Results) == 1 {
+				if call, ok := ast.Unparen(rs.Results[0]).(*ast.CallExpr); ok && len(call.Args) == 3 && isObj(info, call.Args[0], first) && isObj(info, call.Args[1], rest) {
+					h := pkgFuncs(p)[calleeFunc(info, call)]
+					fl, isLit := ast.Unparen(call.Args[2]).(*ast.FuncLit)
+					switch {
+					case h == nil || !isLeftFold(info, h):
+						detail = "the helper it delegates to is not a left fold over all arguments starting from the first"
+					case !isLit || len(fl.Body.List) != 1:
+						detail = "the operator function is not a single expression"
+					default:
+						var ps []types.Object
+						for _, f := range fl.Type.Params.List {
+							for _, n := range f.Names {
+								ps = append(ps, info.Defs[n])
+							}
+						}
+						if r2, ok := fl.Body.List[0].(*ast.ReturnStmt); ok && len(r2.Results) == 1 && len(ps) == 2 {
+							if be, ok := ast.Unparen(r2.Results[0]).(*ast.BinaryExpr); ok && be.Op == ops[name] && isObj(info, be.X, ps[0]) && isObj(info, be.Y, ps[1]) {
+								good = true
+							} else {
+								detail = "the operator function computes " + types.ExprString(r2.Results[0]) + ", want <accumulator> " + ops[name].String() + " <next argument>"
+							}
+						}
+					}
+					if good {
+						c.Check(true, "R16.2", name+"|fold", r.Pos(fd.Pos()), name+" folds all arguments with "+ops[name].String()+" (shared left fold)", "")
+						continue
+					}
+				}
+			}
+		}
 		// returns the accumulator
 		if good {
 			rs, ok := fd.Body.List[len(fd.Body.List)-1].(*ast.ReturnStmt)
@@ -413,6 +448,20 @@ func ruleRunes(c *Ctx, r *Repo) {
 						continue
 					}
 				}
+				if q.Ret[0] == "strings.ToUpper(ARG0)" {
+					// looked up in a set built from the initialism list
+					okSet := false
+					for _, a := range q.Atoms {
+						if a.Val && strings.HasSuffix(a.Expr, "[strings.ToUpper(ARG0)]#ok") {
+							if isSetOfInitialisms(p, strings.TrimSuffix(a.Expr, "[strings.ToUpper(ARG0)]#ok")) {
+								okSet = true
+							}
+						}
+					}
+					if okSet {
+						continue
+					}
+				}
 				const idx = "slices.Index(golintInitialisms, strings.ToUpper(ARG0))"
 				if q.Ret[0] == "golintInitialisms["+idx+"]" {
 					// the list element found equal to the upper-cased input
@@ -446,4 +495,100 @@ func ruleRunes(c *Ctx, r *Repo) {
 		}
 		c.Check(ok, "R16.3", "Exported|semantics", r.Pos(fd.Pos()), "every path returns one of the documented results", "Exported has a path outside the documented results")
 	}
+}
+
+// isLeftFold: func(first T, rest []T, op func(T, T) T) T { acc := first; for _, x := range rest { acc = op(acc, x) }; return acc }
+func isLeftFold(info *types.Info, fd *ast.FuncDecl) bool {
+	var ps []types.Object
+	for _, f := range fd.Type.Params.List {
+		for _, n := range f.Names {
+			ps = append(ps, info.Defs[n])
+		}
+	}
+	if fd.Recv != nil || len(ps) != 3 || len(fd.Body.List) != 3 {
+		return false
+	}
+	var acc types.Object
+	switch x := fd.Body.List[0].(type) {
+	case *ast.AssignStmt:
+		if x.Tok == token.DEFINE && len(x.Lhs) == 1 && len(x.Rhs) == 1 && isObj(info, x.Rhs[0], ps[0]) {
+			acc = info.Defs[x.Lhs[0].(*ast.Ident)]
+		}
+	case *ast.DeclStmt:
+		if gd, ok := x.Decl.(*ast.GenDecl); ok && len(gd.Specs) == 1 {
+			vs := gd.Specs[0].(*ast.ValueSpec)
+			if len(vs.Names) == 1 && len(vs.Values) == 1 && isObj(info, vs.Values[0], ps[0]) {
+				acc = info.Defs[vs.Names[0]]
+			}
+		}
+	}
+	rs, ok := fd.Body.List[1].(*ast.RangeStmt)
+	if acc == nil || !ok || !isObj(info, rs.X, ps[1]) || len(rs.Body.List) != 1 || rs.Value == nil {
+		return false
+	}
+	elem := info.Defs[rs.Value.(*ast.Ident)]
+	as, ok := rs.Body.List[0].(*ast.AssignStmt)
+	if !ok || as.Tok != token.ASSIGN || len(as.Lhs) != 1 || len(as.Rhs) != 1 || !isObj(info, as.Lhs[0], acc) {
+		return false
+	}
+	call, ok := ast.Unparen(as.Rhs[0]).(*ast.CallExpr)
+	if !ok || len(call.Args) != 2 || !isObj(info, call.Fun, ps[2]) || !isObj(info, call.Args[0], acc) || !isObj(info, call.Args[1], elem) {
+		return false
+	}
+	ret, ok := fd.Body.List[2].(*ast.ReturnStmt)
+	return ok && len(ret.Results) == 1 && isObj(info, ret.Results[0], acc)
+}
+
+// isSetOfInitialisms: the package-level variable name is initialised by a function of the package
+// applied to golintInitialisms that returns a map holding every element of its argument as a key.
+func isSetOfInitialisms(p *packages.Package, name string) bool {
+	info := p.TypesInfo
+	for _, f := range p.Syntax {
+		for _, d := range f.Decls {
+			gd, ok := d.(*ast.GenDecl)
+			if !ok || gd.Tok != token.VAR {
+				continue
+			}
+			for _, sp := range gd.Specs {
+				vs := sp.(*ast.ValueSpec)
+				for i, n := range vs.Names {
+					if n.Name != name || i >= len(vs.Values) {
+						continue
+					}
+					call, ok := ast.Unparen(vs.Values[i]).(*ast.CallExpr)
+					if !ok || len(call.Args) != 1 {
+						return false
+					}
+					if id, ok := ast.Unparen(call.Args[0]).(*ast.Ident); !ok || id.Name != "golintInitialisms" {
+						return false
+					}
+					h := pkgFuncs(p)[calleeFunc(info, call)]
+					if h == nil || h.Recv != nil || h.Type.Params.NumFields() != 1 || len(h.Type.Params.List[0].Names) != 1 || len(h.Body.List) != 3 {
+						return false
+					}
+					param := info.Defs[h.Type.Params.List[0].Names[0]]
+					as, ok := h.Body.List[0].(*ast.AssignStmt)
+					if !ok || as.Tok != token.DEFINE || len(as.Lhs) != 1 {
+						return false
+					}
+					set := info.Defs[as.Lhs[0].(*ast.Ident)]
+					rs, ok := h.Body.List[1].(*ast.RangeStmt)
+					if !ok || !isObj(info, rs.X, param) || rs.Value == nil || len(rs.Body.List) != 1 {
+						return false
+					}
+					st, ok := rs.Body.List[0].(*ast.AssignStmt)
+					if !ok || len(st.Lhs) != 1 {
+						return false
+					}
+					ie, ok := ast.Unparen(st.Lhs[0]).(*ast.IndexExpr)
+					if !ok || !isObj(info, ie.X, set) || !isObj(info, ie.Index, info.Defs[rs.Value.(*ast.Ident)]) {
+						return false
+					}
+					ret, ok := h.Body.List[2].(*ast.ReturnStmt)
+					return ok && len(ret.Results) == 1 && isObj(info, ret.Results[0], set)
+				}
+			}
+		}
+	}
+	return false
 }
